@@ -128,9 +128,18 @@ def run(repo: Repo, chk: Check, thorough: bool = False) -> None:
     ok = any(isinstance(c, ast.Call) and call_name(c) == 'getattr' and len(c.args) == 3 and 'handleUnknownField' in norm(c.args[2]) for c in calls_in(hd))
     chk.ob('R09.1', f'{FH}.handle :: unknown tags fall back to handleUnknownField', ok, "getattr(self, 'handle_' + tag, self.handleUnknownField)" if ok else
            'unknown field tags have no fallback handler', hd.loc)
-    fd = repo.func('pydoctor.epydoc2stan.format_docstring')
+    # the function that renders a docstring: format_docstring itself or the helper it delegates to (the one that builds the FieldHandler)
+    entry = repo.func('pydoctor.epydoc2stan.format_docstring')
+    cands = [entry] + [g for g in repo.funcs.values() if g.mod is entry.mod and any(call_name(c) == g.name and isinstance(c.func, ast.Name) for c in calls_in(entry))]
+    fds = [g for g in cands if any(call_name(c) == 'FieldHandler' for c in calls_in(g))]
+    if len(fds) != 1:
+        raise AnalysisError(f'R09.1: {len(fds)} functions reachable from format_docstring build a FieldHandler (expected exactly one)')
+    fd = fds[0]
+    fhv = {t.id for n in fd.walk() if isinstance(n, ast.Assign) and isinstance(n.value, ast.Call) and call_name(n.value) == 'FieldHandler'
+           for t in n.targets if isinstance(t, ast.Name)}
     lp = [n for n in fd.walk() if isinstance(n, ast.For) and 'parsed_docstring.fields' in norm(n.iter)]
-    ok = bool(lp) and any(call_name(c) == 'handle' for c in calls_in(fd)) and any(call_name(c) == 'format' and 'fh' in norm(c.func) for c in calls_in(fd))
+    ok = bool(lp) and any(call_name(c) == 'handle' and isinstance(c.func, ast.Attribute) and dotted(c.func.value) in fhv for st in lp for c in ast.walk(st) if isinstance(c, ast.Call)) and \
+        any(call_name(c) == 'format' and isinstance(c.func, ast.Attribute) and dotted(c.func.value) in fhv for c in calls_in(fd))
     chk.ob('R09.1', 'epydoc2stan.format_docstring :: every field is handed to the handler, the handler is rendered', ok,
            'for field in parsed_docstring.fields: fh.handle(...); ret(fh.format())' if ok else 'fields are no longer all dispatched / rendered', fd.loc)
 
